@@ -15,7 +15,7 @@ from lib import env
 from . import approx
 
 TITLE = 'C05: two-world (caller graph vs internal spanner) affinity inference over the approximate algorithms.'
-RULES = {'R06d': 2, 'R15b': 2, 'R05h': 4, 'R05a': 3, 'R05b': 4, 'R05c': 1, 'R05d': 2, 'R05e': 5, 'R05f': 2, 'R15e': 10}
+RULES = {'R06a': 1, 'R06d': 2, 'R15b': 2, 'R05h': 4, 'R05a': 3, 'R05b': 4, 'R05c': 1, 'R05d': 2, 'R05e': 5, 'R05f': 2, 'R15e': 10}
 DOCS = {
     'R05a': 'no internal descriptor escapes through the caller\'s iterator',
     'R05b': 'returned weight is accumulated from the caller\'s weight map for the emitted edges',
@@ -24,7 +24,7 @@ DOCS = {
     'R05e': 'exact phase skipped only for provably acyclic graphs',
     'R05f': 'the caller\'s output iterator is never reused after being handed away by value',
     'R15e': 'same-world discipline of every BGL call in the approximate algorithms',
-    'R06a': 'k = 0 rejected before anything is emitted',
+    'R06a': 'the k check rejects k = 0 and nothing else: every k >= 1 is accepted for every graph size (also the empty graph)',
     'R06b': 'closing path = Dijkstra on the weighted spanner',
     'R05h': 'throws only for violated input preconditions',
     'R06d': 'each closing path comes from a search run for its own edge on freshly initialised maps',
